@@ -236,105 +236,117 @@ def parse_stream_obs(line):
 def oracle_stream(pid, sc, ob):
     """Property oracles for the raw (identity) streaming body, evaluated on one observed run."""
     ops, res = sc["ops"], ob["results"]
+    if res and res[0] == "HANG":
+        return "the scenario did not finish within 20 s (deadlock or endless loop)" if pid in ("C10", "C20") else None
     if ob["panic"] is not None:
         return "panic: " + ob["panic"] if pid in ("C08", "C11", "C20") else None
     cs = sc["chunk"]
-    accepted = b""
-    delivered = b""
-    fill = 0                # bytes in the writer's private buffer (model: a chunk is handed off when the buffer is full)
-    reader_gone = writer_gone = aborted = False
-    parked = None           # waker ("a"/"b") the consumer last returned Pending with
-    woken = False           # that waker has been woken since
-    terminal = None
-    for op, r0 in zip(ops, res):
+    st = {"accepted": b"", "delivered": b"", "fill": 0, "reader_gone": False, "writer_gone": False, "aborted": False,
+          "parked": None, "woken": False, "terminal": None}
+
+    def on_poll(c, r):
+        pre, ev = r.split(">", 1)
+        lo, up, eos = pre.split(":")
+        eos = eos == "1"
+        kind = ev[0]
+        if pid == "C10" and kind != "P" and st["parked"] is not None and not st["woken"]:
+            # something was there for the consumer, it had gone to sleep on waker `parked`, and nobody woke that waker
+            return "the consumer parked on waker %s, then %s became available, but that waker was never woken" % (
+                st["parked"].upper(), {"D": "a chunk", "E": "the error", "N": "the end"}[kind])
+        if pid == "C12" and eos and (kind == "E" or (kind == "D" and len(bytes.fromhex(ev[1:])) > 0)):
+            return "is_end_stream() true but next poll gave %s" % kind
+        if pid in ("C11", "C12") and st["aborted"] and st["terminal"] is None and eos:
+            return "is_end_stream() true while an abort error is pending"
+        if kind == "D":
+            d = bytes.fromhex(ev[1:])
+            if pid == "C20" and st["terminal"] is not None and len(d) > 0:
+                return "data after terminal event"
+            if pid == "C08" and len(d) == 0:
+                return "empty data frame"
+            st["delivered"] += d
+            if (pid == "C08" or (pid == "C11" and st["aborted"])) and not st["accepted"].startswith(st["delivered"]):
+                return "delivered bytes are not a prefix of the accepted bytes"
+            st["parked"], st["woken"] = None, False
+        elif kind == "E":
+            if pid == "C08" and not st["aborted"]:
+                return "error without abort"
+            if st["terminal"] is None:
+                st["terminal"] = "E"
+            st["parked"], st["woken"] = None, False
+        elif kind == "N":
+            if pid == "C11" and st["aborted"] and st["terminal"] is None:
+                return "clean end after abort"
+            if pid == "C08" and st["terminal"] is None and not st["aborted"] and st["delivered"] != st["accepted"]:
+                return "clean end but delivered != accepted"
+            if st["terminal"] is None:
+                st["terminal"] = "N"
+            st["parked"], st["woken"] = None, False
+        elif kind == "P":
+            if pid == "C10" and (st["writer_gone"] or st["aborted"]):
+                return "Pending although the writer is gone / aborted"
+            st["parked"], st["woken"] = ("b" if c == "Q" else "a"), False
+        return None
+
+    for op, r00 in zip(ops, res):
+        r0, *inline = r00.split("~")
         r, _, wk = r0.partition("!")
         wa, wb = (int(x) for x in wk.split("/")) if wk else (0, 0)
-        if parked == "a" and wa:
-            woken = True
-        if parked == "b" and wb:
-            woken = True
+        if st["parked"] == "a" and wa:
+            st["woken"] = True
+        if st["parked"] == "b" and wb:
+            st["woken"] = True
         c, arg = op[0], op[1:]
         if c in "WL":
             data = bytes.fromhex(arg)
             if r.startswith("w") and r[1:].isdigit():
                 k = int(r[1:])
-                if pid == "C08" and (k > len(data) or (len(data) > 0 and k == 0 and not aborted and not reader_gone)):
+                if pid == "C08" and (k > len(data) or (len(data) > 0 and k == 0 and not st["aborted"] and not st["reader_gone"])):
                     return "write accepted %d of %d bytes" % (k, len(data))
-                accepted += data[:k]
-                published = fill + k >= cs
-                fill = 0 if published else fill + k
-                if pid == "C11" and reader_gone and published:
+                st["accepted"] += data[:k]
+                published = st["fill"] + k >= cs
+                st["fill"] = 0 if published else st["fill"] + k
+                if pid == "C11" and st["reader_gone"] and published:
                     return "body dropped, yet a chunk-completing write returned Ok"
             elif r == "lo":
-                accepted += data
-                n = fill + len(data)
-                if pid == "C11" and reader_gone and n >= cs:
+                st["accepted"] += data
+                n = st["fill"] + len(data)
+                if pid == "C11" and st["reader_gone"] and n >= cs:
                     return "body dropped, yet write_all completing a chunk returned Ok"
-                fill = n % cs
+                st["fill"] = n % cs
             elif r in ("we", "le"):
-                if pid == "C08" and not (aborted or reader_gone):
+                if pid == "C08" and not (st["aborted"] or st["reader_gone"]):
                     return "write to a live body failed"
         elif c == "F":
             if r == "fo":
-                if pid == "C11" and reader_gone and fill > 0:
-                    return "body dropped, yet flush of %d buffered bytes returned Ok" % fill
-                if pid == "C11" and aborted:
+                if pid == "C11" and st["reader_gone"] and st["fill"] > 0:
+                    return "body dropped, yet flush of %d buffered bytes returned Ok" % st["fill"]
+                if pid == "C11" and st["aborted"]:
                     return "flush after abort returned Ok"
-                fill = 0
+                st["fill"] = 0
             elif r == "fe":
-                if pid == "C08" and not (aborted or reader_gone):
+                if pid == "C08" and not (st["aborted"] or st["reader_gone"]):
                     return "flush on a live body failed"
         elif c == "A":
-            if not writer_gone:
-                aborted = True
+            if not st["writer_gone"]:
+                st["aborted"] = True
         elif c == "X":
-            if not writer_gone:
-                writer_gone = True
-                if not aborted:
-                    fill = 0
+            if not st["writer_gone"]:
+                st["writer_gone"] = True
+                if not st["aborted"]:
+                    st["fill"] = 0
         elif c == "R":
-            reader_gone = True
+            st["reader_gone"] = True
         elif c in "PQ" and r != "p-":
-            pre, ev = r.split(">", 1)
-            lo, up, eos = pre.split(":")
-            eos = eos == "1"
-            kind = ev[0]
-            if pid == "C10" and kind != "P" and parked is not None and not woken:
-                # something was there for the consumer, it had gone to sleep on waker `parked`, and nobody woke that waker
-                return "the consumer parked on waker %s, then %s became available, but that waker was never woken" % (
-                    parked.upper(), {"D": "a chunk", "E": "the error", "N": "the end"}[kind])
-            if pid == "C12" and eos and (kind == "E" or (kind == "D" and len(bytes.fromhex(ev[1:])) > 0)):
-                return "is_end_stream() true but next poll gave %s" % kind
-            if pid in ("C11", "C12") and aborted and terminal is None and eos:
-                return "is_end_stream() true while an abort error is pending"
-            if kind == "D":
-                d = bytes.fromhex(ev[1:])
-                if pid == "C20" and terminal is not None and len(d) > 0:
-                    return "data after terminal event"
-                if pid == "C08" and len(d) == 0:
-                    return "empty data frame"
-                delivered += d
-                if (pid == "C08" or (pid == "C11" and aborted)) and not accepted.startswith(delivered):
-                    return "delivered bytes are not a prefix of the accepted bytes"
-                parked, woken = None, False
-            elif kind == "E":
-                if pid == "C08" and not aborted:
-                    return "error without abort"
-                if terminal is None:
-                    terminal = "E"
-                parked, woken = None, False
-            elif kind == "N":
-                if pid == "C11" and aborted and terminal is None:
-                    return "clean end after abort"
-                if pid == "C08" and terminal is None and not aborted and delivered != accepted:
-                    return "clean end but delivered != accepted"
-                if terminal is None:
-                    terminal = "N"
-                parked, woken = None, False
-            elif kind == "P":
-                if pid == "C10" and (writer_gone or aborted):
-                    return "Pending although the writer is gone / aborted"
-                parked, woken = ("b" if c == "Q" else "a"), False
+            why = on_poll(c, r)
+            if why:
+                return why
+        # polls the consumer made from inside wake() while this operation ran (op `I`): it was woken, so it polls with waker A
+        for inl in inline:
+            if st["parked"] == "a":
+                st["woken"] = True
+            why = on_poll("P", inl)
+            if why:
+                return why + " (consumer polling at once when woken)"
     return None
 
 
@@ -361,9 +373,7 @@ def py_should_gzip(value):
             t = m.group(1)
             frac = (t.split(".")[1] if "." in t else "").ljust(3, "0")
             w = int(t[0]) * 1000 + int(frac)
-        if coding in q:
-            return None
-        q[coding] = w
+        q[coding] = w          # a coding listed twice: the later element overrides the earlier one (as specs in units/gz.rs)
     gz = q.get("gzip", q.get("*"))
     if gz is None or gz == 0:
         return False
@@ -386,6 +396,7 @@ def fam_accept_encoding():
     for t in tri:
         for perm in itertools.permutations(t):
             vals.append(", ".join(perm))
+    vals += ["gzip, gzip;q=0", "gzip;q=0, gzip", "gzip, identity, gzip;q=0.5", "gzip;q=0.5, identity;q=0, identity", "*, *;q=0", "identity, gzip;q=0.5, identity;q=0.001", "*;q=0, *", "gzip;q=0.3, gzip;q=0.3"]
     vals += ["gzip;q=2", "gzip;q=0.5555", "gzip;x=1", "gzip;q=", "gzip;", ";q=1", "gzip;q=1.001", "GZIP", "gzip;Q=1", "gzip\t;\tq=0", "\tgzip\t", "gzip,", ",gzip", "gzip,,identity;q=0"]
     out = []
     for k, v in enumerate(vals):
@@ -723,6 +734,19 @@ def fam_stream_ops(maxlen=5, chunks=(1, 2, 3)):
     return out
 
 
+def fam_stream_inline():
+    """The consumer polls at the earliest moment a scheduler could run it: from inside wake() (op I).  Every history parks the
+    consumer first; covers wake-ups issued before the state they announce is visible, and work done after the wake-up."""
+    out, k = [], 0
+    for cs in (2, 4):
+        tails = [["A"], ["X"], ["F"], ["W61", "F"], ["W61", "A"], ["W61", "X"], ["W61", "F", "A"], ["L" + "62" * cs], ["L" + "62" * cs, "A"], ["W61", "F", "W62", "A"], ["F", "A"], ["W", "A"], ["W61", "W62", "X"]]
+        for pre in (["P"], ["P", "Q"], ["W61", "F", "P", "P"], ["P", "W61"]):
+            for t in tails:
+                k += 1
+                out.append({"id": "in%d" % k, "chunk": cs, "ops": pre + ["I"] + t + ["P", "P", "P"]})
+    return out
+
+
 def fam_stream_disconnect():
     out = []
     k = 0
@@ -735,7 +759,7 @@ def fam_stream_disconnect():
 
 
 FAMILIES[("chunker", "Reader::drop")] = ("stream_witness", fam_stream_disconnect)
-FAMILIES[("chunker", "Reader")] = ("stream_witness", lambda: fam_stream_ops(5, (2, 3)) + fam_stream_ops(4, (1,)))
+FAMILIES[("chunker", "Reader")] = ("stream_witness", lambda: fam_stream_inline() + fam_stream_ops(5, (2, 3)) + fam_stream_ops(4, (1,)))
 FAMILIES[("chunker", "Writer")] = FAMILIES[("chunker", "Reader")]
 FAMILIES[("gzipbody", "")] = ("stream_witness", fam_gzip)
 FAMILIES[("build", "BodyWriter")] = ("stream_witness", fam_gzip)
@@ -1091,6 +1115,8 @@ def oracle_whole(pid, sc, ob):
                 if e < a or body[he + 4:he + 4 + (e - a)] != entity_bytes(a, e):
                     return "multipart part headed `bytes %d-%d` does not carry those entity bytes" % (a, e - 1)
                 pos = he + 4 + (e - a)
+            if pos > 0 and body[pos:] != b"\r\n--B--\r\n":
+                return "multipart body carries %d bytes that no part header names (after the part ending at body offset %d)" % (len(body) - pos - 9, pos)
         return None
     if pid == "C06" and st == 206 and cr is None:
         ct = hd.get("content-type", [b""])[-1]
@@ -1195,6 +1221,13 @@ def fam_glue():
             base = {"headers": [("range", rg), ("if-range", ir)], "len": L, "etag": '"x"', "lm": "%d.0" % LM, "entity_headers": [], "scripts": [], "extra_polls": 1}
             out.append(dict(base, id="gl%d" % k, method="GET"))
             out.append(dict(base, id="gl%d:h" % k, method="HEAD"))
+    for et in (None, '"x"', 'W/"x"', "x"):
+        for ir in ("", "W/", '"', "x", 'W/""', '""'):
+            for rg in ("bytes=0-9", "bytes=0-1,5-6"):
+                k += 1
+                base = {"headers": [("range", rg), ("if-range", ir)], "len": L, "etag": et, "lm": "%d.0" % LM, "entity_headers": [], "scripts": [], "extra_polls": 1}
+                out.append(dict(base, id="gl%d" % k, method="GET"))
+                out.append(dict(base, id="gl%d:h" % k, method="HEAD"))
     for L2 in (0, 1, 2):
         for hs in ([], [("range", "bytes=0-0")], [("range", "items=0-0")], [("range", "bytes=0-0"), ("if-range", '"nomatch"')]):
             k += 1
@@ -1530,8 +1563,8 @@ if __name__ == "__main__":
                 print(pid, hit[2], stream_line(hit[0]), "\n   ", hit[1])
         print(len(scs), "scenarios; properties with an oracle failure:", bad)
         sys.exit(0)
-    if fam in ("st", "dc"):
-        scs = fam_stream_ops(int(sys.argv[2]) if len(sys.argv) > 2 else 4) if fam == "st" else fam_stream_disconnect()
+    if fam in ("st", "dc", "in"):
+        scs = fam_stream_ops(int(sys.argv[2]) if len(sys.argv) > 2 else 4) if fam == "st" else (fam_stream_disconnect() if fam == "dc" else fam_stream_inline())
         lines = run_native("stream_witness", [stream_line(x) for x in scs])
         bad = {}
         for sc, ln in zip(scs, lines):
